@@ -456,6 +456,19 @@ theorem model_matches_source :
   · cases p <;> decide +kernel
   · cases u <;> decide +kernel
 
+open OpcuaVerif.Generated.CryptoPolicy in
+/-- the padding overheads, the block count, every guard of `legacy_password_decrypt` in order, its subtraction and slices, and the length field of `legacy_password_encrypt` have the shape the model copies
+(regenerated from the source on every check; the right-hand sides are the shapes the model was
+written from — a change of a guard, an argument order or a condition breaks this obligation) -/
+theorem source_shape :
+    lookup shape "ptbs.arms" = some "Pkcs1,11|OaepSha1,42|OaepSha256,66" ∧
+    lookup shape "ctsize.count" = some "ifdata_size%plain_text_block_size==0{data_size/plain_text_block_size}else{(data_size/plain_text_block_size)+1},self.cipher_text_block_size()" ∧
+    lookup shape "decrypt.guards" = some "secret.is_null()|src.len()%server_key.size()!=0|plaintext_size+4!=actual_size|server_nonce.len()>plaintext_size|nonce!=server_nonce" ∧
+    lookup shape "decrypt.nonce_begin" = some "actual_size-nonce_len" ∧
+    lookup shape "decrypt.slices" = some "nonce_begin..(nonce_begin+nonce_len)|4..nonce_begin" ∧
+    lookup shape "encrypt.size_and_length_field" = some "4+password.len()+server_nonce.len(),(plaintext_size-4)" := by
+  decide +kernel
+
 /-! ### decrypting ANY byte string never panics -/
 
 theorem decLoop_no_panic (r : Rsa) (hks : 0 < r.ks)
@@ -559,19 +572,19 @@ theorem toy_dec_enc (ks : Nat) (hks : ks < 65536) (pad : Padding) (rnd : Nat) (m
       rw [hb]
       simp only []
       have e0 : (([m.length / 256, m.length % 256] ++ m ++ List.replicate (ks - 4 - m.length) 0) ++
-          [toySum ([m.length / 256, m.length % 256] ++ m ++ List.replicate (ks - 4 - m.length) 0) / 256 % 256,
-           toySum ([m.length / 256, m.length % 256] ++ m ++ List.replicate (ks - 4 - m.length) 0) % 256]).getD 0 0
+          [toyCk pad ([m.length / 256, m.length % 256] ++ m ++ List.replicate (ks - 4 - m.length) 0) / 256 % 256,
+           toyCk pad ([m.length / 256, m.length % 256] ++ m ++ List.replicate (ks - 4 - m.length) 0) % 256]).getD 0 0
           = m.length / 256 := by simp
       have e1 : (([m.length / 256, m.length % 256] ++ m ++ List.replicate (ks - 4 - m.length) 0) ++
-          [toySum ([m.length / 256, m.length % 256] ++ m ++ List.replicate (ks - 4 - m.length) 0) / 256 % 256,
-           toySum ([m.length / 256, m.length % 256] ++ m ++ List.replicate (ks - 4 - m.length) 0) % 256]).getD 1 0
+          [toyCk pad ([m.length / 256, m.length % 256] ++ m ++ List.replicate (ks - 4 - m.length) 0) / 256 % 256,
+           toyCk pad ([m.length / 256, m.length % 256] ++ m ++ List.replicate (ks - 4 - m.length) 0) % 256]).getD 1 0
           = m.length % 256 := by simp
       rw [e0, e1, hml]
       generalize hbody : [m.length / 256, m.length % 256] ++ m ++ List.replicate (ks - 4 - m.length) 0 = body at *
-      have ht : (body ++ [toySum body / 256 % 256, toySum body % 256]).take (ks - 2) = body := by
+      have ht : (body ++ [toyCk pad body / 256 % 256, toyCk pad body % 256]).take (ks - 2) = body := by
         rw [← hbl]; simp
-      have hd : (body ++ [toySum body / 256 % 256, toySum body % 256]).drop (ks - 2) =
-          [toySum body / 256 % 256, toySum body % 256] := by
+      have hd : (body ++ [toyCk pad body / 256 % 256, toyCk pad body % 256]).drop (ks - 2) =
+          [toyCk pad body / 256 % 256, toyCk pad body % 256] := by
         rw [← hbl]; simp
       rw [ht, hd]
       have hz : (body.drop (2 + m.length)).all (· == 0) = true := by
@@ -581,9 +594,9 @@ theorem toy_dec_enc (ks : Nat) (hks : ks < 65536) (pad : Padding) (rnd : Nat) (m
           rw [show (2 + m.length) = ([m.length / 256, m.length % 256] ++ m).length by simp; omega]
           rw [List.drop_left]
         rw [this]; simp
-      have hr : ((body ++ [toySum body / 256 % 256, toySum body % 256]).drop 2).take m.length = m := by
+      have hr : ((body ++ [toyCk pad body / 256 % 256, toyCk pad body % 256]).drop 2).take m.length = m := by
         rw [← hbody]; simp
-      have hlen : (body ++ [toySum body / 256 % 256, toySum body % 256]).length = ks := by
+      have hlen : (body ++ [toyCk pad body / 256 % 256, toyCk pad body % 256]).length = ks := by
         simp [hbl]; omega
       simp [hlen, hm, hz, hr]
     · exact absurd h (by simp)
